@@ -11,7 +11,7 @@ static void in_index8(u64* idx, const u64* oshape, u64 n, u64 hi){ for (u64 i = 
 
 /* np.repeat(a, [r_0..r_{n-1}], axis): one count 0..MAXR per element along axis (not all zero), axis in [-DIM, DIM) */
 void h_repeat_each(void){
-  u64 shape[3] = {1,1,1}, reps[4], idx[4], os[4] = {0}, od = 0, ex[4] = {0}, src[3] = {0,0,0}, total = 0; u32 data[CELLS], out = 0;
+  u64 shape[4] = {1,1,1,1}, reps[4], idx[4], os[4] = {0}, od = 0, ex[4] = {0}, src[4] = {0,0,0,0}, total = 0; u32 data[CELLS], out = 0;
   in_shape(shape, DIM); in_data(data, NCELL);
   i32 ax = in_i32(-DIM, DIM - 1); u64 an = norm_axis(ax, DIM);
   for (u64 i = 0; i < 4; i++){ reps[i] = in_u64(0, MAXR); if (i < shape[an]) total += reps[i]; }
@@ -35,7 +35,7 @@ void h_repeat_each(void){
 static void in_axes2(i32* ax, u64* n){ for (int i = 0; i < 2; i++){ ax[i] = in_i32(-DIM, DIM - 1); n[i] = norm_axis(ax[i], DIM); } ASSUME(n[0] != n[1]); }
 /* np.roll(a, (s0,s1) | s, (a0,a1)): two distinct axes in [-DIM, DIM), shifts in [-2n, 2n] */
 static void roll_axes(int scalar){
-  u64 shape[3] = {1,1,1}, idx[4], os[4] = {0}, od = 0, src[3] = {0,0,0}, n[2]; u32 data[CELLS], sh[2], axs[2], out = 0; i32 ax[2], s[2];
+  u64 shape[4] = {1,1,1,1}, idx[4], os[4] = {0}, od = 0, src[4] = {0,0,0,0}, n[2]; u32 data[CELLS], sh[2], axs[2], out = 0; i32 ax[2], s[2];
   in_shape(shape, DIM); in_data(data, NCELL);
   in_axes2(ax, n);
   for (int i = 0; i < 2; i++){ s[i] = in_i32(-2*MAXE, 2*MAXE); }
@@ -59,7 +59,7 @@ void h_roll_axes_scalar(void){ roll_axes(1); }
 
 /* sliding_window_view(a, (w0,w1), (a0,a1)): two distinct axes; result shape = a.shape with n_{a_i} - w_i + 1, followed by (w0, w1) */
 void h_sliding_axes(void){
-  u64 shape[3] = {1,1,1}, win[2], idx[6], os[8] = {0}, od = 0, ex[6] = {0}, src[3] = {0,0,0}, n[2]; u32 data[CELLS], axs[2], out = 0; i32 ax[2];
+  u64 shape[4] = {1,1,1,1}, win[2], idx[6], os[8] = {0}, od = 0, ex[6] = {0}, src[4] = {0,0,0,0}, n[2]; u32 data[CELLS], axs[2], out = 0; i32 ax[2];
   in_shape(shape, DIM); in_data(data, NCELL);
   in_axes2(ax, n);
   for (int i = 0; i < 2; i++){ win[i] = in_u64(1, MAXE); ASSUME(win[i] <= shape[n[i]]); axs[i] = (u32)ax[i]; }
@@ -79,7 +79,7 @@ void h_sliding_axes(void){
 
 /* expand(a, (a0,a1), (s0,s1) | s, fill): spacing insertion along two distinct axes */
 static void expand_axes(int scalar){
-  u64 shape[3] = {1,1,1}, sp[2], idx[4], os[4] = {0}, od = 0, ex[4] = {0}, src[3] = {0,0,0}, n[2]; u32 data[CELLS], axs[2], out = 0; i32 ax[2];
+  u64 shape[4] = {1,1,1,1}, sp[2], idx[4], os[4] = {0}, od = 0, ex[4] = {0}, src[4] = {0,0,0,0}, n[2]; u32 data[CELLS], axs[2], out = 0; i32 ax[2];
   in_shape(shape, DIM); in_data(data, NCELL);
   in_axes2(ax, n);
   for (int i = 0; i < 2; i++){ sp[i] = in_u64(0, MAXS); axs[i] = (u32)ax[i]; }
